@@ -24,7 +24,7 @@ Definition out_C55 (bc : Z) (ps : list (bytes * bytes)) (body resp : bytes) : va
 
 (* ---- op 2: Transport.RoundTrip end to end ----
    input [2 method scheme host remote path query proto clen [[hname [hval ...]] ...] root [[ename eval] ...] body resp]
-   output [written rterr status body bodyerr] *)
+   output [written rterr status body bodyerr statustext] *)
 Definition dec_hdr (v : val) : option (bytes * list bytes) :=
   match v with VL [VB k; vs] => match as_LB vs with Some l => Some (k, l) | None => None end | _ => None end.
 Definition dec2_C55 (i : val) : option (freq * bytes * bytes) :=
@@ -40,9 +40,9 @@ Definition dec2_C55 (i : val) : option (freq * bytes * bytes) :=
 Definition out2_C55 (ps : list (bytes * bytes)) (body resp : bytes) : val :=
   let '(st, code) := client_stream resp in
   match parse_reply st code with
-  | Some (rterr, status, rbody) =>
+  | Some (rterr, status, text, rbody) =>
     VL [VB (do_written 1 ps body); VZ rterr; VZ status; VB rbody;
-        VZ (if rterr =? 0 then (if code =? 0 then 0 else 1) else 0)]
+        VZ (if rterr =? 0 then (if code =? 0 then 0 else 1) else 0); VB text]
   | None => VErr 7                      (* reply outside the modelled sub-language: never generated *)
   end.
 
@@ -77,7 +77,7 @@ Definition agree_C55 (i o : val) : bool :=
     end
   | _, _ =>
     match dec2_C55 i, o with
-    | Some (q, body, resp), VL [VB w; VZ _; VZ _; VB _; VZ _] =>
+    | Some (q, body, resp), VL [VB w; VZ _; VZ _; VB _; VZ _; VB _] =>
       match spec_request w with
       | Some (l, _) =>
         (length l =? length (meta_pairs q))%nat &&
@@ -110,7 +110,7 @@ Definition prop_C55 (i o : val) : bool :=
     && (if has_end resp then code =? 0 else true)
   | _, _ =>
     match dec2_C55 i, o with
-    | Some (q, body, resp), VL [VB w; VZ rterr; VZ status; VB rbody; VZ bodyerr] =>
+    | Some (q, body, resp), VL [VB w; VZ rterr; VZ status; VB rbody; VZ bodyerr; VB rtext] =>
       (* the request: body unchanged, every expected CGI meta-variable present with its value *)
       match spec_request w with
       | Some (l, b) => bytes_eqb b body && forallb (fun e => existsb (pair_eqb e) l) (spec_meta q) && distinct_keys l
@@ -119,7 +119,7 @@ Definition prop_C55 (i o : val) : bool :=
       (* the response (checked for complete replies): status and body come from the STDOUT stream only *)
       && (if has_end resp
           then match parse_reply (spec_stdout resp) 0 with
-               | Some (e, s, b) => (rterr =? e) && (status =? s) && bytes_eqb rbody b && (bodyerr =? 0)
+               | Some (e, s, t, b) => (rterr =? e) && (status =? s) && bytes_eqb rbody b && (bodyerr =? 0) && bytes_eqb rtext t
                | None => true
                end
           else true)
